@@ -17,6 +17,7 @@ package handler
 // ServiceMap splits at the first '.' only; a name without one, or with an
 // unknown service, has no handler; empty segments are passed through unchanged.
 //@ func (ServiceMap).Assign
+//@   requires forall(k string, in(m, k) ==> lookup(m, k) != nil)
 //@   modifies assignCalls
 //@   ensures[C17:no-dot] idxByte(method, '.') < 0 ==> result == nil && assignCalls == old(assignCalls)
 //@   ensures[C17:unknown-service] idxByte(method, '.') >= 0 && !in(m, substr(method, 0, idxByte(method, '.'))) ==> result == nil && assignCalls == old(assignCalls)
